@@ -269,7 +269,11 @@ ASMJIT_FAVOR_SIZE Error FuncFrame::finalize() noexcept {
   _sa_offset_from_sp = has_da ? FuncFrame::kTagInvalidOffset : v;
 
   // Calculate where the function arguments start relative to FP or user-provided register.
-  _sa_offset_from_sa = has_fp ? return_address_size + register_size      // Return address + frame pointer.
+  //
+  // With a link register (AArch64) the frame pointer is set up right after the first (pre-indexed) store, so it
+  // points to the bottom of the push/pop area like any other SA register initialized from SP.
+  _sa_offset_from_sa = (has_fp && !arch_traits.has_link_reg())
+                          ? return_address_size + register_size        // Return address + frame pointer.
                           : return_address_size + _push_pop_save_size; // Return address + all push/pop regs.
 
   return Error::kOk;
